@@ -188,13 +188,23 @@ def run(rep, tier, driver):
     # the accumulation of `full` over the tree (C10_forest_full / C10_tree_full): tree_full of a connected glycan = every residue's own
     # tree_full (the residue converted alone) and no '?' in any linkage label
     gl = sorted({s for (i, role, full, kind, base), (s, _) in zip(meta, jobs) if kind != "fragment"})[: (150 if tier == "quick" else 2000)]
+    # … and is connected (Model `components`, C10_connected_without_fragments / C10_components_count): floating parts of any size
+    gl += sorted({s for (i, role, full, kind, base), (s, _) in zip(meta, jobs) if kind == "fragment" and role == "variant"})[: (60 if tier == "quick" else 800)]
+    comps = {}
+    if driver is not None:
+        for s0, a in zip(gl, driver.ask_many({"op": "front", "s": s0} for s0 in gl)):
+            if a.get("verdict") == "ok":
+                comps[s0] = a["tree"].get("components")
     tf = dict(zip(gl, pmap(_tree_full, gl, chunk=4)))
     residues = sorted({n for v in tf.values() if v for n in v[1]})
     rf = dict(zip(residues, pmap(_tree_full, residues, chunk=8)))
     for s0, v in tf.items():
         if not v or any(rf.get(n) is None for n in v[1]):
             continue
-        want = all(rf[n][0] for n in v[1]) and not any("?" in l for l in v[2])
+        if driver is not None and comps.get(s0) is None:
+            continue
+        want = all(rf[n][0] for n in v[1]) and not any("?" in l for l in v[2]) and (driver is None or comps[s0] == 1)
+        rep.count("tree-full-components-%s" % comps.get(s0))
         rep.count("tree-full-accumulation")
         rep.case(canon=["tree_full", s0], nontrivial=len(v[1]) > 1)
         if v[0] != want:
